@@ -112,3 +112,34 @@ func VerifHarness_C17_GenerateConverters() {
 	gc := verifEffectArg("call:github.com/jmattheis/goverter/generator.Generate", 0, 1).(generator.Config)
 	verifAssert("constraint-reaches-generator", gc.BuildConstraint == constraint)
 }
+
+// VerifHarness_C17_WriteFailure: when any output file cannot be written - its directory cannot be created or the
+// write itself fails, whichever file it is - the run reports an error.
+func VerifHarness_C17_WriteFailure() {
+	nfiles := 2 + nondetChoice("files", 2)
+	failAt := nondetChoice("failing-file", nfiles)
+	mkdirFails := nondetBool("mkdir-fails")
+	verifStubReturn("github.com/jmattheis/goverter/comments.ParseDocs", []config.RawConverter{}, nil)
+	verifStubReturn("github.com/jmattheis/goverter/config.Parse", []*config.Converter{}, nil)
+	files := map[string][]byte{}
+	for i := 0; i < nfiles; i++ {
+		files[[]string{"/work/a/generated/generated.go", "/work/b/generated/generated.go", "/work/c/generated/generated.go"}[i]] = []byte("content")
+	}
+	verifStubReturn("github.com/jmattheis/goverter/generator.Generate", files, nil)
+	// the k-th file system operation of its kind fails, every other one succeeds
+	for i := 0; i < nfiles; i++ {
+		if i == failAt && mkdirFails {
+			verifStubReturn("os.MkdirAll", errors.New("mkdir: not a directory"))
+		} else {
+			verifStubReturn("os.MkdirAll", nil)
+		}
+		if i == failAt && !mkdirFails {
+			verifStubReturn("os.WriteFile", errors.New("write: permission denied"))
+		} else {
+			verifStubReturn("os.WriteFile", nil)
+		}
+	}
+	err := GenerateConverters(&GenerateConfig{PackagePatterns: []string{"./..."}, WorkingDir: "/work", BuildTags: "goverter", OutputBuildConstraint: "!goverter"})
+	verifReach("written")
+	verifAssert("a-file-that-cannot-be-written-fails-the-run", err != nil)
+}
